@@ -41,7 +41,23 @@ var (
 
 func genPattern(t *rapid.T) string {
 	w := func() string { return rapid.SampledFrom(c11Words).Draw(t, "word") }
-	switch rapid.IntRange(0, 17).Draw(t, "pattern_kind") {
+	switch rapid.IntRange(0, 25).Draw(t, "pattern_kind") {
+	case 18:
+		return w() + rapid.SampledFrom([]string{"{2}", "{1,2}", "{0,}", "{1}"}).Draw(t, "count") // counted repetition of the last letter
+	case 19:
+		return rapid.SampledFrom([]string{"9{3}", "x{2,3}", "[0-9]{1,3}", "9{2,}", "(ab){2}"}).Draw(t, "counted")
+	case 20:
+		return rapid.SampledFrom([]string{"a{2,1}", "x{1001}", "9{3", "{3}", "a{,2}"}).Draw(t, "odd_count") // invalid, or literal braces
+	case 21:
+		return "(?i)" + strings.ToUpper(w())
+	case 22:
+		return rapid.SampledFrom([]string{`\d+`, `\w+ \w+`, `\S*`, `\bversion\b`, `\d{3}`}).Draw(t, "perl_class")
+	case 23:
+		return w() + rapid.SampledFrom([]string{"?", ".*?", "+?", "??"}).Draw(t, "lazy")
+	case 24:
+		return rapid.SampledFrom([]string{"[^ ]+", "[[:alpha:]]+", "[^0-9]*", "[a-z ]+"}).Draw(t, "class")
+	case 25:
+		return rapid.SampledFrom([]string{"(?P<n>" + w() + ")", "(?:" + w() + ")+", "(" + w() + ")?" + w()}).Draw(t, "group")
 	case 0:
 		return w()
 	case 1:
@@ -160,7 +176,7 @@ func genC11Request(t *rapid.T, users []string) c11Req {
 		n := rapid.IntRange(0, 4).Draw(t, "ncmdargs")
 		for i := 0; i < n; i++ {
 			sep := rapid.SampledFrom([]string{"=", "=", "=", "=", "*"}).Draw(t, "cmd_arg_sep")
-			cargs = append(cargs, "cmd-arg"+sep+rapid.SampledFrom(append([]string{";", "reload", "|", "a b", "", "terminal;reload", "<cr>", "detail=all", "a*b", "x=y*z", "force<cr>", "reload<CR>", "<cr><cr>"}, c11Words...)).Draw(t, "cmd_arg_val"))
+			cargs = append(cargs, "cmd-arg"+sep+rapid.SampledFrom(append([]string{";", "reload", "|", "a b", "", "terminal;reload", "<cr>", "detail=all", "a*b", "x=y*z", "force<cr>", "reload<CR>", "<cr><cr>", "999", "99", "xx", "xxx", "abab", "9{3}", "x{2,3}", "TERMINAL", "terminall", "versio", "123"}, c11Words...)).Draw(t, "cmd_arg_val"))
 		}
 		switch rapid.IntRange(0, 4).Draw(t, "line_end") {
 		case 0:
